@@ -38,7 +38,8 @@ class C03(Check):
     rule = ("one run = one info (data type, channels, 1-3 scales, 1-2 chunk "
             "sizes per scale, encoding + parameters) x accessor kind/options "
             "and a seeded history (<=40 ops) of valid writes across chunks "
-            "and scales, off-grid writes (9 classes), closes and reads via "
+            "and scales, off-grid writes (12 classes incl. per-axis mixes of "
+            "different declared chunk sizes), closes and reads via "
             "the same or a fresh handle; distinct = distinct reach signature "
             "(encoding, dtype, channels, accessor kind+options, #scales, "
             "multi chunk sizes, border chunks, rewrites, invalid classes "
@@ -174,8 +175,21 @@ class C03(Check):
         lo, hi = co[2 * d], co[2 * d + 1]
         cls = rng.choice(["off_lattice", "short_max", "long_max", "beyond",
                           "negative", "swapped", "arity5", "arity7",
-                          "border_full", "axes_permuted", "empty"])
+                          "border_full", "axes_permuted", "empty"]
+                         + (["mixed_sizes"] * 6 if len(scale["cs"]) > 1
+                            else []))
         c = list(co)
+        if cls == "mixed_sizes":
+            # each axis on the lattice of *some* declared chunk size, but
+            # no single chunk size matches all three axes
+            pick = [rng.randrange(len(scale["cs"])) for _ in range(3)]
+            if len(set(pick)) == 1:
+                pick[rng.randrange(3)] = (pick[0] + 1) % len(scale["cs"])
+            c = []
+            for ax in range(3):
+                a = scale["cs"][pick[ax]][ax]
+                lo_ = rng.randrange(-(-size[ax] // a)) * a
+                c += [lo_, min(lo_ + a, size[ax])]
         if cls == "off_lattice":
             c[2 * d] = lo + 1
         elif cls == "short_max":
